@@ -3,13 +3,15 @@
 PROPS = {
     "C10": {
         "level": "proof",
-        "kani": ["c10_f64"],
+        "kani": ["c10_f64", "c10_f62", "c10_f128"],
         "verus": ["f64_core", "f62_core"],
         "level_text": "Exact modular contracts (requires/ensures) on the real text of the base-field primitives, "
                       "discharged for all inputs: Verus for the Montgomery cores of f64 and f62, Kani over the full "
                       "2^64 x 2^64 domain for the linear operations and equality.",
-        "level_note": "Trusted: Verus/Z3, Kani/CBMC, vstd specs, assume_specification for u64::overflowing_add/sub. "
-                      "Not under contract yet: exp, inv, extension-field formulas, f128 mul (see evidence).",
+        "level_note": "Trusted: Verus/Z3, Kani/CBMC, vstd specs, assume_specification for u64::overflowing_add/sub. Under contract: "
+                      "f64/f62 add, sub, neg, double, mul, new, as_int, eq, normalize, mul_small, quadratic-extension mul / "
+                      "mul_base / frobenius, f128 add/sub/neg/new/eq. NOT under contract: exp, exp_vartime, inv (except "
+                      "zero -> zero for f62), cubic-extension formulas, f128 mul/inv, division (see evidence).",
         "trusted": [],
         "assumptions": [],
         "explanation": "",
@@ -152,7 +154,7 @@ PROPS = {
     },
     "C11": {
         "level": "proof",
-        "kani": ["c11_f64", "c11_f62"],
+        "kani": ["c11_f64", "c11_f62", "c10_f128"],
         "verus": ["f64_core", "f62_core"],
         "level_text": "Decoders accept exactly the values below the modulus and return new(value), encoders write the "
                       "little-endian canonical integer (Kani, complete over all byte strings / integers); "
